@@ -475,6 +475,31 @@ class World:
             self.add(manifest_delete(repo, dg("sha256", body)))
             self.add(tag_list(repo, None, None))
 
+    def negotiate(self):
+        """an index with children under a tag, read by tag and by digest with Accept lists that leave out the index's own type
+        (content negotiation down to a child applies to tag requests only)"""
+        rng = self.rng
+        repo = self.repo()
+        imgs = [(b, mt) for b, mt in self.manifests[repo] if mt in (MT_OCI_M, MT_DOCK_M)]
+        if not imgs:
+            self.push_manifest("image", repo=repo)
+            imgs = [(b, mt) for b, mt in self.manifests[repo] if mt in (MT_OCI_M, MT_DOCK_M)]
+            if not imgs:
+                return
+        kids = rng.sample(imgs, min(len(imgs), rng.randrange(1, 3)))
+        imt = rng.choice([MT_OCI_I, MT_DOCK_I])
+        body = index_manifest([desc(mt, b) for b, mt in kids], media_type=imt, annotations={"neg": str(len(self.steps))} if imt == MT_OCI_I else None)
+        self.contents.add(body)
+        tag = rng.choice(TAGS[:3])
+        self.add(manifest_put(repo, tag, body, ctype=imt))
+        self.manifests[repo].append((body, imt))
+        self.tags[repo].add(tag)
+        for acc in ((kids[0][1],), (MT_OCI_M, MT_DOCK_M), (MT_DOCK_M,), (imt,), (kids[-1][1], "text/plain")):
+            if rng.random() < 0.7:
+                self.add(manifest_get(repo, tag, accept=acc))
+            if rng.random() < 0.5:
+                self.add(manifest_get(repo, dg("sha256", body), accept=acc))
+
     def repush(self):
         """a manifest whose bytes are already stored (pushed and deleted by digest, or uploaded through the blob API first)
         is pushed by digest again and read back"""
@@ -636,7 +661,8 @@ class World:
         weights = dict(blob=p["blob"] + p["chunked"], mount=p["mount"], image=p["image"], index=p["index"],
                        artifact=p["artifact"], mread=p["mread"], bread=p["bread"], tags=p["tags"], refs=p["refs"],
                        mdel=p["mdel"], bdel=p["bdel"], sess=p["sess"], retag=p.get("retag", 0.3 if p["image"] > 0 else 0),
-                       repush=p.get("repush", 0.4 if p["image"] > 0 else 0))
+                       repush=p.get("repush", 0.4 if p["image"] > 0 else 0),
+                       negotiate=p.get("negotiate", 0.4 if p["index"] > 0 and p["mread"] > 0 else 0))
         while len(self.steps) < nsteps:
             k = pick(self.rng, weights)
             if k == "blob":
@@ -664,6 +690,8 @@ class World:
                 self.retag()
             elif k == "repush":
                 self.repush()
+            elif k == "negotiate":
+                self.negotiate()
             elif k == "sess":
                 if self.rng.random() < self.profile.get("interrupt", 0.15):
                     self.interrupted_upload()
